@@ -728,6 +728,43 @@ def r10_element_lookups(idx, r):
         raise AnalysisError(f"only {n} element lookups by a caller's z/symbol/name found")
 
 
+def r11_natural_isotopics_filter(idx, r):
+    """Element.getNaturalIsotopics selects the nuclides with a natural abundance.  Its filter is evaluated on every row of nuclides.dat: it must
+    keep exactly the rows with abundance > 0 (isomeric states included: Ta-180m is the natural form of Ta-180), or the element's natural
+    abundances no longer sum to one."""
+    from ..minieval import MiniEval
+    f = idx.method("armi.nucDirectory.elements.Element", "getNaturalIsotopics")
+    ret = next((x for x in walk_local(f.node) if isinstance(x, ast.Return) and isinstance(x.value, (ast.ListComp, ast.GeneratorExp))), None)
+    if ret is None or len(ret.value.generators) != 1 or norm(ret.value.generators[0].iter) != "self.nuclides":
+        raise AnchorMissing("Element.getNaturalIsotopics: comprehension over self.nuclides")
+    g = ret.value.generators[0]
+    v = norm(g.target)
+    rows = read_nuclides(idx)
+
+    class _E(MiniEval):
+        def __init__(self, row):
+            super().__init__()
+            self.row = row
+
+        def _ev(self, e, env):
+            if isinstance(e, ast.Attribute) and norm(e.value) == v:
+                key = {"abundance": "abund", "a": "a", "z": "z", "state": "s", "n": "n"}.get(e.attr)
+                if key is None:
+                    raise AnalysisError(f"getNaturalIsotopics: attribute `{e.attr}` is not a column of nuclides.dat")
+                return self.row[key]
+            return super()._ev(e, env)
+    wrong = []
+    for row in rows:
+        keep = all(_E(row)._truth(_E(row)._ev(c, {})) for c in g.ifs)
+        if keep != (row["abund"] > 0.0 and row["a"] > 0):
+            wrong.append(row)
+    r.require(not wrong, "natural-isotopics:exactly-the-rows-with-abundance", f, node=ret,
+              msg=(f"{len(wrong)} nuclide(s) with a natural abundance are filtered differently, e.g. {wrong[0]['sym']}{wrong[0]['a']}{'M' if wrong[0]['s'] else ''} (abundance {wrong[0]['abund']}, state "
+                   f"{wrong[0]['s']}): the element's natural isotopics no longer sum to one and its elemental expansion loses that share") if wrong else "")
+    nat_iso = [row for row in rows if row["abund"] > 0 and row["s"] > 0]
+    r.require(bool(nat_iso), "natural-isomer-present-in-data", f, msg="nuclides.dat holds a natural isomer (the case that distinguishes the filters)")
+
+
 def run(idx, chk):
     chk.explanation = (
         "C19: nuclides.dat, elements.dat, burn-chain.yaml and mcc-nuclides.yaml are parsed as data and linted exhaustively (unique (Z,A,S), N=A-Z, "
@@ -755,3 +792,5 @@ def run(idx, chk):
                  necessary="a rejected registration leaves the directory consistent; every material composition is normalised for every admitted input")
     chk.run_rule("R19.10", "element look-ups consult the table of the argument's kind and normalise it so that every stored key finds itself (all elements)", lambda r: r10_element_lookups(idx, r), floor=8,
                  necessary="every element is reachable by number, symbol and name through the directory's own helpers")
+    chk.run_rule("R19.11", "getNaturalIsotopics keeps exactly the data rows with a natural abundance (evaluated on all of nuclides.dat)", lambda r: r11_natural_isotopics_filter(idx, r), floor=2,
+                 necessary="natural abundances of every element sum to one (or zero)")
